@@ -63,6 +63,11 @@ def parse_ops(tt):
 
     for _ in range(int(nx())):
         k = nx()
+        guard = None
+        if k == "G":   # guarded create / update (Store/XOps.v XPersist): G <badtags> <k> (<store> <field>)*k <C .. | UP ..>
+            bt = nx() == "1"
+            guard = dict(badtags=bt, req=[(nx(), nx()) for _ in range(int(nx()))])
+            k = nx()
         if k == "C":
             s, i, sy = nx(), nx(), nx() == "1"
             fv, sv = fvsv()
@@ -88,6 +93,8 @@ def parse_ops(tt):
             ops.append(dict(kind=k, store=s, id=i, field=lf, targets=ts))
         else:
             ops.append(dict(kind=k))
+        if guard is not None:
+            ops[-1]["guard"] = guard
     return sysf, pc, vetoes, ops
 
 
